@@ -1,4 +1,5 @@
 import Driver.Common
+import Driver.Sys
 import Log4rsModel.Routing.Spec
 /-
 C01 case:   appenders(,)  rootLevel  rootRefs(,)  loggers(, of name;level;additive;refs(|))  probes(, of target;level)
@@ -216,6 +217,8 @@ def handleWith (failing : Option (List Name)) (apps rootLevel rootRefs loggers p
 
 def handle : Handler := fun cas obs =>
   match cas, obs with
+  -- the System slice (Driver/Sys.lean): the literal `sys` cannot be a hex-encoded appender list
+  | "sys" :: rest, obs => Driver.Sys.handle rest obs
   | [apps, rootLevel, rootRefs, loggers, probes], [implObs] =>
     handleWith none apps rootLevel rootRefs loggers probes implObs none
   | [apps, rootLevel, rootRefs, loggers, probes, failing], [implObs] =>
